@@ -2,8 +2,9 @@
 """import.py <Cxx> <k>: copy a coordinator-validated seeded change from /tmp/mut/<Cxx>.out to /verif/seeded/<Cxx>-m<k>/"""
 import json, os, shutil, sys
 ID, K = sys.argv[1], sys.argv[2]
+PID = ID[:3]
 src = "/tmp/mut/%s.out" % ID
-dst = os.path.join(os.path.dirname(os.path.dirname(os.path.dirname(os.path.abspath(__file__)))), "seeded", "%s-m%s" % (ID, K))
+dst = os.path.join(os.path.dirname(os.path.dirname(os.path.dirname(os.path.abspath(__file__)))), "seeded", "%s-m%s" % (PID, K))
 val = json.load(open(os.path.join(src, "validation.json")))
 ok = (val["build_failures_excl_baseline"] == 0 and val["demo_rc_with_change"] != 0 and val["demo_rc_without_change"] == 0
       and not val["suite_failures_excl_baseline"])
@@ -16,7 +17,7 @@ for f in os.listdir(src):
 meta = json.load(open(os.path.join(src, "meta.json")))
 meta["coordinator_validation"] = dict(val, ran="tools/mut/validate.sh %s (agent's worktree re-diffed against patch.diff; incremental ninja -k 0 in a copy-on-write overlay of /repo/_build; demo with change; demo on clean worktree; full ctest -j8 --timeout 900; failing tests re-run alone once)" % ID,
     suite_note="baseline failures corecel/sys/MpiCommunicator* excluded")
-meta["breaks_property"] = ID
-meta["round"] = 3
+meta["breaks_property"] = PID
+meta["round"] = 4 if ID.endswith("b") else 3
 json.dump(meta, open(os.path.join(dst, "meta.json"), "w"), indent=1)
 print("imported", dst)
